@@ -22,10 +22,11 @@ Structural necessary conditions decided on the resolved program (never behaviour
     Decompressor::read; child pid waited for once
  S4 parser-fd-loop-observes-close   a parser loop that reads the file descriptor itself in every iteration also tests, in
                              every iteration, a state that close() changes (queue in-use flag / atomic flag); queue-fed loops
-                             get that from queue_wrapper::pop.  FIRES on today's tree: PBFParser::parse_data_blobs (KNOWN)
+                             get that from queue_wrapper::pop; where the condition can be evaluated, its polarity is checked
+                             (with the queue shut down, control must take the leaving edge).  Found F10 (fixed in /repo)
  F1 parser-closes-its-descriptor    a parser that stores parser_arguments::fd owns it: closed on every normal exit of run() and
-                             on every exceptional one (dominating close, closing handler, or destructor).  The error-path
-                             instance FIRES on today's tree: PBFParser::run (KNOWN)
+                             on every exceptional one (dominating close, closing handler, or destructor; a close through a
+                             local copy of the member counts).  Found F9 (fixed in /repo)
  D1 destructor-swallows      no user-provided destructor under io/, thread/ lets an explicitly thrown exception escape
  D1 throwing-call-in-destructor-wrapped   (one instance per throwing call site in such a destructor)
  L1 referent-declared-before-holder   members referenced by a thread the object starts (or by a sibling whose user-provided
@@ -57,20 +58,10 @@ from ..flow import describe_path, guards_of, path_search
 from . import c19
 
 KNOWN = [
-    # (rule, key, explanation) -- genuine findings on the pristine tree (reported with R.bad; the coordinator decides between
-    # a repository fix and a known_findings.txt line)
-    ('S4-parser-fd-loop-observes-close', 'osmium::io::detail::PBFParser::parse_data_blobs#fd-input-loop',
-     'PBF files opened by name / stdin / URL are read by the parser thread itself (Reader hands m_fd to PBFParser because the '
-     'DummyDecompressor is not "real"). The blob loop `while (size = check_type_and_get_blob_size("OSMData"))` never looks at the '
-     'result queue or any stop flag; pushes to the shut-down queue are silent no-ops. Sequence: Reader r{"large.osm.pbf"}; r.read(); '
-     'r.close(); -> close() returns, but the parser thread keeps reading and decoding (pool tasks!) every remaining blob up to EOF and '
-     '~Reader (thread_handler join) blocks until then. Violates "a closed Reader reads nothing more from its input"; teardown time is '
-     'linear in the rest of the file.'),
-    ('F1-parser-closes-its-descriptor', 'osmium::io::detail::PBFParser::run#closed-on-error-paths',
-     'PBFParser::run() closes the descriptor it owns only as its last statement. Any exception before that (4-byte file ff ff ff ff -> '
-     '"invalid BlobHeader size", truncated file -> "unexpected EOF", wrong first blob type, ...) leaves run() through Parser::parse\'s '
-     'catch (...); ~PBFParser is defaulted, DummyDecompressor::close() is empty and Reader never closes m_fd: each failed PBF read leaks '
-     'one file descriptor (and the pipe to curl for URLs).'),
+    # (rule, key, explanation) -- genuine findings on the pristine tree.  None at the moment.  History: S4 on
+    # PBFParser::parse_data_blobs#fd-input-loop (F10: the blob loop never looked at the result queue, a closed Reader read the
+    # rest of the file) and F1 on PBFParser::run#closed-on-error-paths (F9: descriptor leaked when run() threw) were found by
+    # these rules and fixed in /repo (b833505, bd5a230); the reverted fixes are mutants in selftest/mutants/fixes.py.
 ]
 
 EXPLANATION = (
@@ -964,6 +955,42 @@ def _state_call(fb, fn, n, memo, depth=4):
     return False
 
 
+def _eval_shut_down(fb, fn, nid, depth=0):
+    """value of a boolean expression when every pipeline queue it asks is shut down (Queue::in_use() == false); None if the
+    expression depends on anything else."""
+    n = fn.sn(nid)
+    if n is None or depth > 6:
+        return None
+    k = n.get('k')
+    if k == 'lit' or ('cv' in n and k != 'call'):
+        v = fn.const_value(nid)
+        return None if v is None else bool(v)
+    if k == 'unop' and n.get('op') == '!':
+        v = _eval_shut_down(fb, fn, n['sub'], depth + 1)
+        return None if v is None else (not v)
+    if k == 'binop' and n.get('op') in ('&&', '||'):
+        a = _eval_shut_down(fb, fn, n['lhs'], depth + 1)
+        b = _eval_shut_down(fb, fn, n['rhs'], depth + 1)
+        if n['op'] == '&&':
+            return False if (a is False or b is False) else (True if (a and b) else None)
+        return True if (a is True or b is True) else (False if (a is False and b is False) else None)
+    if k == 'call':
+        if n.get('q') == QUEUE + '::in_use':
+            return False
+        if n.get('u') and n.get('q', '').startswith('osmium::') and not n.get('virt'):
+            vals = set()
+            for g in fb.by_usr.get(n['u'], []):
+                if not g.has_cfg:
+                    continue
+                rets = [r for r in g.all_nodes() if r.get('k') == 'return' and isinstance(r.get('sub'), int)]
+                if len(rets) != 1:
+                    return None
+                vals.add(_eval_shut_down(fb, g, rets[0]['sub'], depth + 1))
+            if len(vals) == 1:
+                return vals.pop()
+    return None
+
+
 def _parser_classes(fb):
     return {r.q for r in fb.derived_from(PARSER)}
 
@@ -1004,9 +1031,14 @@ def rule_parser_input_loops(fb, R):
                       and _state_call(fb, f, f.nodes[x], memo)]
                 if not sc:
                     continue
-                leaves = any(s is not None and path_search(f, s, _exit_t, lambda e: e in raw_el, from_block_start=True) is not None
-                             for s in b['succs'])
-                if leaves:
+                leaving = [i for i, s in enumerate(b['succs'])
+                           if s is not None and path_search(f, s, _exit_t, lambda e: e in raw_el, from_block_start=True) is not None]
+                # polarity, where it can be evaluated: with the queue shut down (in_use() == false) the condition must send
+                # control along a leaving edge (succs[0] is the true edge)
+                v = _eval_shut_down(fb, f, b['cond'])
+                if v is not None:
+                    leaving = [i for i in leaving if i == (0 if v else 1)]
+                if leaving:
                     obs |= {elem_of(f, c['id']) for c in sc}
             w = None
             for c in raw:
@@ -1038,12 +1070,24 @@ def rule_parser_fd(fb, R, E):
         found += 1
         methods = _dedupe([f for f in fb.functions if f.cls == rec.q and f.has_cfg and not f.is_lambda])
 
-        def closers(f, fdfield=fdfield):
-            return [c for c in f.all_nodes() if c.get('k') == 'call' and c.get('q') in FD_CLOSERS and c.get('args')
-                    and fn_field(f, c['args'][0]) == fdfield]
+        def names_fd(fn, aid, fdfield=fdfield):
+            """the argument is the descriptor member, or a local initialised from it (const int fd = m_fd; m_fd = -1;)."""
+            if fn_field(fn, aid) == fdfield:
+                return True
+            a = fn.sn(aid)
+            if a is not None and a.get('k') == 'var' and a.get('vk') in ('local', None):
+                for m in fn.all_nodes():
+                    if m.get('k') == 'decl':
+                        for v in m['vars']:
+                            if v['d'] == a.get('d') and isinstance(v.get('init'), int) and fn_field(fn, v['init']) == fdfield:
+                                return True
+            return False
 
-        def is_close(fn, n, fdfield=fdfield):
-            return n.get('q') in FD_CLOSERS and n.get('args') and fn_field(fn, n['args'][0]) == fdfield
+        def closers(f):
+            return [c for c in f.all_nodes() if c.get('k') == 'call' and c.get('q') in FD_CLOSERS and c.get('args') and names_fd(f, c['args'][0])]
+
+        def is_close(fn, n):
+            return n.get('q') in FD_CLOSERS and bool(n.get('args')) and names_fd(fn, n['args'][0])
         dtor_closes = any(must_call(fb, d, is_close, 3) is None for d in fb.fns(rec.q + '::(dtor)'))
         run = [f for f in methods if f.name == 'run']
         for f in run:
@@ -1326,8 +1370,7 @@ def _selftest(fb, R):
     rule_read_loop(fb, R)
     rule_parser_input_loops(fb, R)
     rule_parser_fd(fb, R, E)
-    # the conforming twin in the positive example must stay silent (S4 and F1#closed-on-error-paths fire on today's tree,
-    # so this is their only evidence that they can also pass)
+    # the conforming twin in the positive example must stay silent
     for (rule, key) in (('S4-parser-fd-loop-observes-close', NS + 'GoodFdParser::run#fd-input-loop'),
                         ('F1-parser-closes-its-descriptor', NS + 'GoodFdParser::run#closed-on-normal-exit'),
                         ('F1-parser-closes-its-descriptor', NS + 'GoodFdParser::run#closed-on-error-paths')):
